@@ -122,6 +122,13 @@ pub fn run(tier: &str, seed: u64, dir: &str) {
             }
         }
     }
+    // long runs of unanswered join attempts: every JoinRequest of the walk must be on a join channel
+    for region in REGIONS {
+        for k in 0..(if thorough { 20 } else { if is_fixed(region) { 5 } else { 1 } }) {
+            let op = join_walk("C09", &mut rng, region, k);
+            sink.case(&op, &eval(&op), "join-walk", true);
+        }
+    }
     // device level: both front-ends with the scripted radio (see adevgen::add_dev_classes)
     crate::adevgen::add_dev_classes("C09", &mut rng, &mut sink, thorough, eval);
     sink.finish(dir, "MAC histories with OTAA joins (CFLists), LinkADRReq / NewChannelReq / DlChannelReq downlinks, ADR back-off, application data-rate changes, join bias, antenna gains {0,2,-3,6} and board powers {2,14,20,30}; a state snapshot follows every step so that each TxConfig is judged against the plan in force; forced RNG draws enumerate channel choices of the initial state; plans reduced to a single enabled slot at every index. Non-trivial = every case.", false, serde_json::json!({}));
